@@ -34,7 +34,7 @@ func VP_C02_verify() {
 		}
 		vpAssert(vpTokSignedBy == vpKeyPAASign, "accepted-cookie-mac-made-under-the-paa-signing-key")
 		vpAssert(vpTokIssuer == "rdpgw", "accepted-cookie-names-the-gateway-as-issuer")
-		now := int64(vpU64("now1"))
+		now := vpLastNow // the latest instant handed to the code (= the harness's presentation time if the code never asked)
 		if vpTokExp != nil {
 			vpAssert(int64(*vpTokExp) >= now-60, "accepted-cookie-not-expired-beyond-leeway")
 		}
@@ -60,7 +60,7 @@ func VP_C02_verify() {
 		vpReach("rejected-iss")
 		vpAssert(!ok, "wrong-issuer-is-rejected")
 	}
-	if vpTokKind == 1 && vpTokExp != nil && vpNowCalls >= 1 && int64(*vpTokExp) < int64(vpU64("now1"))-60 {
+	if vpTokKind == 1 && vpTokExp != nil && vpNowCalls >= 1 && int64(*vpTokExp) < vpLastNow-60 {
 		vpReach("rejected-exp")
 		vpAssert(!ok, "expired-cookie-is-rejected")
 	}
@@ -107,7 +107,7 @@ func VP_C02_mint() {
 	if vpMintClaims == nil || vpMintPrivate == nil {
 		return
 	}
-	now := int64(vpU64("now1"))
+	now := vpLastNow // the latest instant handed to the code (= the harness's presentation time if the code never asked)
 	vpAssert(vpMintClaims.Issuer == "rdpgw", "minted-issuer-is-the-gateway")
 	vpAssert(vpMintClaims.Subject == user, "minted-subject-is-the-user")
 	vpAssert(vpMintClaims.Expiry != nil, "minted-token-has-an-expiry")
